@@ -401,9 +401,29 @@ Definition run_scenario (lk : bool) (c : case) : bytes :=
   | _ => bad_case_output
   end.
 
+(* kind 2: end to end through the real Reloader: zargs = mode :: records per phase :: reload kinds
+   (0 = valid file, other = invalid or incompatible file).  One connection that stays open, the reloads in
+   between; the output is the verdict, the failure / success counters and the generation (= version of the
+   configuration) that serves the connection at the end. *)
+Definition e2e_ops (kinds : list Z) : list hop :=
+  HNew 0 0 true :: HAcc 0 1 true ::
+  flat_map (fun k => [HReload (if Z.eqb k 0 then 0 else 1) true; HAcc 0 1 true]) kinds ++
+  [HTick 0 true; HClose 0 true].
+
+Definition run_e2e (c : case) : bytes :=
+  match c_zargs c with
+  | _ :: _ :: kinds =>
+    let st := d_st (replay true 1 1 (e2e_ops kinds)) in
+    [101%N; 50%N; 101%N] ++                                      (* "e2e" *)
+    (if bytes_eqb (verdict st) str_ok then [] else [c_dash; 108%N; c_o; c_s; c_t]) ++
+    colon :: join c_semi [field 70%N (nd (st_fails st)); field 83%N (nd (st_succs st)); field 67%N (nd (st_cur st))]
+  | _ => bad_case_output
+  end.
+
 Definition run_case_C17 (c : case) : bytes :=
   match c_kind c with
   | 0%N => run_scenario true c
+  | 2%N => run_e2e c
   | 9%N => run_scenario false c     (* the original NewSink (documentation of defect #13; never generated by the harness) *)
   | _ => bad_case_output
   end.
